@@ -56,6 +56,7 @@ PROPS['C02'] = {
         ('geo', 'c02.rs', r'^c02_k_rect_line$', 'complete', 'thorough'),
         ('geo', 'c02.rs', r'^c02_k_(linestring_pos|polygon_pos|multilinestring_pos)', 'bounded', 'quick'),
         ('geo', 'c02.rs', r'^c02_k_multipolygon_pos_finding', 'bounded', 'thorough'),
+        ('geo', 'c02.rs', r'^c02_k_(ls_contains_line|ring_contains_line_rot)', 'bounded', 'thorough'),
         ('geo', 'c02.rs', r'^c02_k_ring_pos_[13]$', 'bounded', 'quick'),
         ('geo', 'c02.rs', r'^c02_k_ring_pos_4$', 'bounded', 'thorough'),
     ],
